@@ -236,7 +236,8 @@ def main(argv=None):
     for i, c in enumerate(cases):
         c.setdefault("seed", seed)
         c.setdefault("tier", tier)
-    watchdog = getattr(mod, "WATCHDOG", {"quick": 180, "thorough": 600})[tier]
+    # the watchdog only ends workers that stopped reporting; generous so that a loaded machine does not trip it
+    watchdog = getattr(mod, "WATCHDOG", {"quick": 900, "thorough": 3600})[tier]
     results, fatal, engage = run_cases(prop, cases, jobs, watchdog, env, a.progress)
 
     known = [k for k in load_known() if k.get("property") == prop]
